@@ -709,3 +709,27 @@ def mandatory_children(G, rule):
             return count(e["e"], depth + 1)
         return 0
     return count(G.expr(rule))
+
+
+def callback_guard_sites(core):
+    """[(function, k, live guards, loc)] for every call of FunctionDef::call in blots-core: the heap guards that may be live during it"""
+    cg = M.CallGraph([core])
+
+    def gk(callee, argtys, dest_ty):
+        if callee == "core::cell::RefCell::<T>::borrow" and argtys and HEAPCELL in argtys[0]:
+            return "shared"
+        if callee == "core::cell::RefCell::<T>::borrow_mut" and argtys and HEAPCELL in argtys[0]:
+            return "mut"
+        return None
+    out = []
+    for n in sorted(cg.fns):
+        if FCALL not in cg.out.get(n, ()):
+            continue
+        fn = M.Fn(cg.fns[n], n)
+        live_at, gen = M.guard_liveness(fn, gk)
+        for k, b in enumerate(fn.calls_to(FCALL)):
+            t = fn.term(b)
+            moved = {a["move"]["l"] for a in t["args"] if "move" in a and not a["move"]["p"]}
+            live = sorted(g for g in live_at.get(b, set()) if g[0] not in moved)
+            out.append((n, k, [(g[0], g[1], fn.loc(g[2])) for g in live], fn.loc(b)))
+    return out
